@@ -9,6 +9,8 @@
                       of a query that is not one line of printable ASCII only the first line "error: <msg>"
                       is prescribed and the block is read up to its empty line); then, if
                       constants were described, the heading and one line per description
+   The query is the program's arguments joined by one blank each (`any 1 + 2` = `any "1 + 2"`): the recorder also hands
+   queries over in pieces (mode "words") and the same output is prescribed.
    The rendering of a decimal (C08) and the spelling of each single unit are taken from the
    library; this module and UnitDisplay.tla own their composition (blank, plural, powers, order).                                                                       *)
 EXTENDS UnitDisplay
